@@ -100,6 +100,17 @@ theorem dataId_of_mirror (n : T) :
   rw [lookup_mirror_data_id]
   by_cases h : n.did = n.data.hid <;> simp [h]
 
+/-- the `data_id` written by `to_dict` is a number or a string (hashable). -/
+theorem didUnhashable_mirror (n : T) : didUnhashable (mirrorFields n) = false := by
+  have h := lookup_mirror_data_id n
+  unfold lookupF at h
+  unfold didUnhashable
+  rw [h]
+  by_cases hc : n.did = n.data.hid
+  · simp [hc]
+  · simp only [ne_eq, hc, not_false_eq_true, if_true]
+    cases n.did <;> rfl
+
 /-- the child list `from_dict` recurses into (a missing key means no children). -/
 theorem children_of_mirror (n : T) :
     (lookupF (mirrorFields n) "children" = none ∧ mirrorL n.kids = []) ∨
@@ -119,12 +130,13 @@ theorem fromDictL_nil (sa : String → Atom) (deser : Option (Fields → DRes)) 
 theorem fromDictL_step {sa : String → Atom} {f : Nat} {d : Fields} {rest kidsJ : List JVal} {t t1 t2 : Tree}
     {p nx n2 : NodeId} {s : String}
     (hdata : lookupF d "data" = some (.str s))
+    (hun : didUnhashable d = false)
     (hadd : t.addData nx p (sa s) .none ((lookupF d "data_id").bind jDid) none = .ok t1)
     (hc : (lookupF d "children" = none ∧ kidsJ = []) ∨ lookupF d "children" = some (.arr kidsJ))
     (hk : fromDictL sa none f kidsJ t1 nx (nx + 1) = .ok (t2, n2)) :
     fromDictL sa none (f + 1) (.obj d :: rest) t p nx = fromDictL sa none (f + 1) rest t2 p n2 := by
   rw [fromDictL]
-  rcases hc with ⟨hc, rfl⟩ | hc <;> simp only [hdata, hadd, hc, hk]
+  rcases hc with ⟨hc, rfl⟩ | hc <;> simp only [itemData, hdata, hadd, hc, hk, scalarAtom, childItems, hun, Bool.false_eq_true, if_false]
 
 theorem dict_heightL_cons_le {n : T} {rest : List T} {f : Nat} (h : heightL (n :: rest) ≤ f) :
     ∃ f', f = f' + 1 ∧ heightL n.kids ≤ f' ∧ heightL rest ≤ f := by
@@ -242,7 +254,7 @@ theorem fromDictL_mirrorL (sa : String → Atom) :
       exact (by omega : ∀ a b c : Nat, a + (b + 1 + c) = a + 1 + b + c) _ _ _
     refine ⟨t3, T.node { id := nx, data := i.data, did := i.did, kind := none } ks' :: rs', ?_, ?_, ?_, h3, ?_, hty3, hhk3⟩
     · rw [mirrorL_cons, mirror_eq, hlen]
-      rw [fromDictL_step (lookup_mirror_data _) hadd (children_of_mirror _) hrun2]
+      rw [fromDictL_step (lookup_mirror_data _) (didUnhashable_mirror _) hadd (children_of_mirror _) hrun2]
       exact hrun3
     · rw [hroot3, hroot2, modT_modT_same]
       congr 1
